@@ -541,7 +541,11 @@ pub mod life {
         #[kani::stub(alloc::alloc::dealloc, crate::verif::common::stub_dealloc)]
         #[kani::stub(alloc::alloc::realloc, crate::verif::common::stub_realloc)]
         fn c18_selftest() {
-            arm_alloc();
+            // unarmed allocations are counted by nobody and trip nothing
+            let b0 = alloc::boxed::Box::new(7u32);
+            core::mem::forget(b0);
+            assert!(alloc_events() == 0, "C18 selftest: an unarmed allocation was counted");
+            arm_alloc_count_only();
             let b = alloc::boxed::Box::new(5u32);
             assert!(alloc_events() == 1, "C18 selftest: an armed allocation was not counted (stubs not applied)");
             // (Box's drop glue reaches the allocator through a Kani-internal model, not through alloc::alloc::dealloc:
